@@ -326,7 +326,7 @@ pub fn run(ctx: &Ctx) -> Report {
     rep.extra.insert("exhaustive_tag_sequences".into(), json!({"tokens": n, "max_len": depth, "contexts": frag_ctx.len(), "cases": total * frag_ctx.len() as u64}));
     rep.extra.insert("doctype_sweep".into(), json!({"cases": sweep.len()}));
     // (1) grammar
-    let out = run_random(ctx.seed, ctx.tier.pick(1_500_000, 40_000_000), 1500, decode, |c, st| check_with(c, &kf, st));
+    let out = run_random(ctx.seed, ctx.tier.pick(4_000_000, 60_000_000), 1500, decode, |c, st| check_with(c, &kf, st));
     rep.absorb(out);
     for l in [
         "adoption agency with a furthest block",
